@@ -107,6 +107,12 @@ def run(ctx, idx):
             continue
         for rec in divs:
             ok = any(isinstance(x, Arr) and x.kind == "masked" for x in rec[1:3]) and not isinstance(rec[3], ast.AugAssign) or (isinstance(rec[3], ast.AugAssign) and isinstance(rec[1], Arr) and rec[1].kind == "masked")
+            if not ok:
+                # the quotient of the raw data, with every non-finite cell (x/0 -> inf, 0/0 -> nan) masked afterwards and returned as that
+                qa = r.div_results.get(id(rec[3]), frozenset())
+                if qa and any(qa & fm for fm in r.finite_masked) and all(isinstance(v_, Arr) and v_.kind == "masked" and (v_.alias & qa) for _n, _s, v_ in R.ret_sites(d, r)):
+                    ctx.hold("C07.c", con, d.module.rel, rec[0], "raw quotient whose non-finite cells (zero divisors) are masked before it is returned")
+                    continue
             floor_ = isinstance(rec[3], (ast.BinOp, ast.AugAssign)) and isinstance(rec[3].op, (ast.FloorDiv, ast.Mod))
             if floor_:
                 ctx.violate("C07.c", con, d.module.rel, rec[0], "`%s` is not a true division" % K.src(rec[3]))
